@@ -27,7 +27,7 @@ from vkit import codec, soup, tspec  # noqa: E402
 
 PROP = "C07"
 DEBUG = [DebugTrail.DISABLE, DebugTrail.FIRST, DebugTrail.ALL]
-GEN = tspec.TypeGen(max_depth=3, dumpable_unions=False, disjoint_unions=False)
+GEN = tspec.TypeGen(max_depth=3, dumpable_unions=False, disjoint_unions=False, unhashable_set_elems=True)
 GEN_NEAR = tspec.TypeGen(max_depth=3)
 
 STRICT_ORIGINS = {  # docs/loading-and-dumping/specific-types-behavior.rst, "Allowed strict origins"
@@ -44,7 +44,13 @@ def st_case(draw):
         datum, ops = draw(soup.st_near_valid(t, max_mut=2))
     else:
         t = draw(GEN.strategy())
-        datum, ops = draw(soup.st_soup()), ["soup"]
+        if tspec.has_set_node(t) and tspec.near_valid_possible(t) and draw(st.booleans()):
+            # aimed data for sets, also for sets whose elements load to unhashable values: a near-valid dump of the
+            # same type with lists in place of the sets
+            datum, ops = draw(soup.st_near_valid(tspec.listify_sets(t)))
+            ops = ["listified_sets", *ops]
+        else:
+            datum, ops = draw(soup.st_soup()), ["soup"]
     layouts = {}
     for n in model_names(t):
         if draw(st.integers(0, 4)) == 0:
